@@ -24,6 +24,7 @@ import (
 	"fmt"
 	"net"
 	"sort"
+	"sync"
 	"sync/atomic"
 	"testing"
 	"time"
@@ -156,6 +157,9 @@ type c21World struct {
 	excludedStale   bool
 	excludedShrink  bool
 	splitPublish    bool // broker operations ran between the operator's read and its write
+	refreshAt       int  // next admin operation: a refresh of the same broker is issued at its k-th context check
+	refreshDuring   bool
+	refreshInside   bool
 }
 
 func (e *c21Env) newWorld(nb int) (*c21World, error) {
@@ -286,9 +290,9 @@ func (w *c21World) create(b int, name string, n int, knownStale bool) error {
 	if err := w.beforeMutation(b, knownStale); err != nil {
 		return err
 	}
-	ctx, cancel := context.WithTimeout(context.Background(), 30*time.Second)
-	defer cancel()
+	ctx, join := w.opCtx(b)
 	_, err := w.brokers[b].CreateTopic(ctx, metadata.TopicSpec{Name: name, NumPartitions: int32(n), ReplicationFactor: 1})
+	join()
 	w.trace = append(w.trace, fmt.Sprintf("create(b%d,%s,%d)=%v", b, name, n, err))
 	if err == nil {
 		if o, ok := w.owner[name]; ok && o != b {
@@ -303,13 +307,72 @@ func (w *c21World) create(b int, name string, n int, knownStale bool) error {
 	return nil
 }
 
+// c21HookCtx is a request context whose k-th Done() check starts a RefreshSnapshot of the same
+// broker in another goroutine ("the snapshot watcher fires while the admin operation runs") and
+// gives it up to 20 ms to finish. On a store that serialises refreshes with admin operations
+// the refresh simply waits until the operation is over.
+type c21HookCtx struct {
+	context.Context
+	mu    sync.Mutex
+	calls int
+	at    int
+	fire  func()
+}
+
+func (c *c21HookCtx) Done() <-chan struct{} {
+	c.mu.Lock()
+	c.calls++
+	hit := c.calls == c.at
+	c.mu.Unlock()
+	if hit && c.fire != nil {
+		c.fire()
+	}
+	return c.Context.Done()
+}
+
+// opCtx returns the context for an admin operation on broker b; with w.refreshAt > 0 it is a
+// c21HookCtx. join must be called after the operation.
+func (w *c21World) opCtx(b int) (ctx context.Context, join func()) {
+	base, cancel := context.WithTimeout(context.Background(), 30*time.Second)
+	at := w.refreshAt
+	w.refreshAt = 0
+	if at == 0 {
+		return base, cancel
+	}
+	done := make(chan struct{})
+	started := false
+	h := &c21HookCtx{Context: base, at: at}
+	h.fire = func() {
+		started = true
+		go func() {
+			defer close(done)
+			rctx, rcancel := context.WithTimeout(context.Background(), 30*time.Second)
+			defer rcancel()
+			_ = w.brokers[b].RefreshSnapshot(rctx)
+		}()
+		select {
+		case <-done:
+			w.refreshInside = true // it did not have to wait for the operation
+		case <-time.After(20 * time.Millisecond):
+		}
+	}
+	return h, func() {
+		if started {
+			<-done
+			w.refreshDuring = true
+			w.trace = append(w.trace, fmt.Sprintf("[refresh(b%d) issued during the operation]", b))
+		}
+		cancel()
+	}
+}
+
 func (w *c21World) grow(b int, name string, n int, knownStale bool) error {
 	if err := w.beforeMutation(b, knownStale); err != nil {
 		return err
 	}
-	ctx, cancel := context.WithTimeout(context.Background(), 30*time.Second)
-	defer cancel()
+	ctx, join := w.opCtx(b)
 	err := w.brokers[b].CreatePartitions(ctx, name, int32(n))
+	join()
 	w.trace = append(w.trace, fmt.Sprintf("grow(b%d,%s,%d)=%v", b, name, n, err))
 	if err == nil {
 		if o, ok := w.owner[name]; ok && o != b {
@@ -328,9 +391,9 @@ func (w *c21World) del(b int, name string, knownStale bool) error {
 	if err := w.beforeMutation(b, knownStale); err != nil {
 		return err
 	}
-	ctx, cancel := context.WithTimeout(context.Background(), 30*time.Second)
-	defer cancel()
+	ctx, join := w.opCtx(b)
 	err := w.brokers[b].DeleteTopic(ctx, name)
+	join()
 	w.trace = append(w.trace, fmt.Sprintf("delete(b%d,%s)=%v", b, name, err))
 	if err == nil {
 		if o, ok := w.owner[name]; ok && o != b {
@@ -468,7 +531,9 @@ func TestVF_C21_Histories(t *testing.T) {
 	env := c21NewEnv(t)
 	knownStale := vfkit.Known(c21FindingStale)
 	knownShrink := vfkit.Known(c21FindingShrink)
-	names := []string{"a", "b", "c"}
+	// mostly three plain names (so that operations collide), plus other classes of legal topic
+	// names: Kafka-style internal ("__"), single underscore, dots, dashes
+	names := []string{"a", "a", "b", "b", "c", "__lfs_ops_state", "__consumer_offsets", "_tmp", "pay.v1", "x-y"}
 	rapid.Check(t, func(rt *rapid.T) {
 		st.Eval()
 		nb := rapid.IntRange(2, 3).Draw(rt, "brokers")
@@ -488,6 +553,9 @@ func TestVF_C21_Histories(t *testing.T) {
 		var doOp func(op string)
 		doOp = func(op string) {
 			b := rapid.IntRange(0, nb-1).Draw(rt, "broker")
+			if (op == "create" || op == "grow" || op == "delete") && rapid.IntRange(0, 3).Draw(rt, "refreshDuring") == 0 {
+				w.refreshAt = rapid.IntRange(1, 8).Draw(rt, "refreshAtCheck")
+			}
 			switch op {
 			case "create":
 				name := rapid.SampledFrom(names).Draw(rt, "name")
@@ -523,7 +591,7 @@ func TestVF_C21_Histories(t *testing.T) {
 				var crs []c21CR
 				used := map[string]bool{}
 				for j := 0; j < k; j++ {
-					name := rapid.SampledFrom([]string{"a", "b", "c", "orders"}).Draw(rt, "crName")
+					name := rapid.SampledFrom([]string{"a", "b", "c", "orders", "a", "b", "pay.v1", "_tmp", "x-y"}).Draw(rt, "crName")
 					if used[name] {
 						continue
 					}
@@ -578,12 +646,111 @@ func TestVF_C21_Histories(t *testing.T) {
 			st.Class("broker-operation-between-operator-read-and-write")
 			nt = true
 		}
+		if w.refreshDuring {
+			st.Class("refresh-of-the-same-broker-issued-during-an-admin-operation")
+			nt = true
+		}
+		if w.refreshInside {
+			st.Class("that-refresh-ran-inside-the-operation(not serialised)")
+		}
 		if nt {
 			if st.NonTrivial(nb, w.trace) {
 				st.Sample(map[string]any{"brokers": nb, "trace": w.trace})
 			}
 		} else {
 			st.Class("trivial")
+		}
+	})
+}
+
+// TestVF_C21_ConcurrentRefresh: snapshot refreshes of ONE broker (what its watcher does on
+// every snapshot change, and what RefreshSnapshot callers do) run truly concurrently with that
+// broker's admin operations, on a snapshot big enough for the operations to take a while.
+// After every acknowledged growth the etcd snapshot must show it. Real goroutine concurrency:
+// which interleavings occur is up to the Go scheduler, so this leg only adds evidence (a store
+// that serialises refreshes with admin operations cannot fail it).
+func TestVF_C21_ConcurrentRefresh(t *testing.T) {
+	st := vfkit.NewStats("C21", "concurrent-refresh")
+	defer st.Flush()
+	env := c21NewEnv(t)
+	rapid.Check(t, func(rt *rapid.T) {
+		st.Eval()
+		ntopics := rapid.IntRange(20, 60).Draw(rt, "topics")
+		nparts := rapid.IntRange(4, 12).Draw(rt, "partitions")
+		refreshers := rapid.IntRange(2, 6).Draw(rt, "refreshers")
+		ngrow := rapid.IntRange(20, 50).Draw(rt, "grows")
+		w, err := env.newWorld(1)
+		if err != nil {
+			fmt.Println("VF-INCONCLUSIVE:", err)
+			rt.Fatalf("inconclusive: %v", err)
+		}
+		defer w.close()
+		s := w.brokers[0]
+		ctx, cancel := context.WithTimeout(context.Background(), 120*time.Second)
+		defer cancel()
+		counts := map[string]int{}
+		for i := 0; i < ntopics; i++ {
+			name := fmt.Sprintf("t%02d", i)
+			if _, err := s.CreateTopic(ctx, metadata.TopicSpec{Name: name, NumPartitions: int32(nparts), ReplicationFactor: 1}); err != nil {
+				fmt.Println("VF-INCONCLUSIVE: set-up CreateTopic:", err)
+				rt.Fatalf("inconclusive: %v", err)
+			}
+			counts[name] = nparts
+		}
+		stop := make(chan struct{})
+		var wg sync.WaitGroup
+		var refreshes atomic.Int64
+		for r := 0; r < refreshers; r++ {
+			wg.Add(1)
+			go func() {
+				defer wg.Done()
+				for {
+					select {
+					case <-stop:
+						return
+					default:
+					}
+					if s.RefreshSnapshot(ctx) == nil {
+						refreshes.Add(1)
+					}
+				}
+			}()
+		}
+		var violation string
+		func() {
+			defer func() {
+				if r := recover(); r != nil {
+					violation = fmt.Sprintf("CreatePartitions panicked while snapshot refreshes of the same broker were running: %v", r)
+				}
+			}()
+			for i := 0; i < ngrow && violation == ""; i++ {
+				name := fmt.Sprintf("t%02d", rapid.IntRange(0, ntopics-1).Draw(rt, "topic"))
+				want := counts[name] + 1
+				if err := s.CreatePartitions(ctx, name, int32(want)); err != nil {
+					continue // rejected: nothing acknowledged
+				}
+				counts[name] = want
+				w.acked[name] = want
+				if v, err := w.checkEtcd(fmt.Sprintf("grow(%s,%d) with %d concurrent refreshers", name, want, refreshers)); err != nil {
+					fmt.Println("VF-INCONCLUSIVE:", err)
+					violation = "inconclusive"
+				} else if v != "" {
+					violation = v
+				}
+			}
+		}()
+		close(stop)
+		wg.Wait()
+		if violation == "inconclusive" {
+			rt.Fatalf("inconclusive")
+		}
+		if violation != "" {
+			rt.Fatalf("%s", violation)
+		}
+		st.ClassN("refreshes-completed", int(refreshes.Load()))
+		st.ClassN("acknowledged-growths", len(w.acked))
+		if st.NonTrivial(ntopics, nparts, refreshers, ngrow, refreshes.Load() > 0) {
+			st.Sample(map[string]any{"topics": ntopics, "partitions": nparts, "refreshers": refreshers, "grows": ngrow, "refreshes_completed": refreshes.Load()})
 		}
 	})
 }
